@@ -229,7 +229,7 @@ def run(chk):
     chk.coverage.update({
         "evaluations": len(cases) + len(conc) + strace_info["runs"],
         "distinct_nontrivial": len(distinct) + len(set(c.line for c in conc)),
-        "rule": "logs generated from one SplitMix64 seed: (a) small logs, every truncation length; (b) boundary logs: prefix batches solved (from the header/entry size formulas) to end 0..25 (and a few larger) bytes before the 1 MiB boundary, a probe batch from 8 bytes to the 2^20-byte maximum incl. exact fits, followers; reads = full + every truncation within +-48 bytes of each block boundary, +-3 of each append end, the tail; (c) rollover / table-full logs; (d) mutated logs and raw malformed files (frames built independently in Python: non-canonical varints, unknown/duplicate/reordered fields, wrong wire types, bad sizes, discriminants, crc right and wrong, damaged entries); (e) 2..8 threads appending through ConcurrentLogBuilder; non-trivial = at least one successful append and one read (or a raw file of >= 2 bytes); distinct = distinct case lines",
+        "rule": "logs generated from one SplitMix64 seed: (a) small logs, every truncation length; (b) boundary logs: prefix batches solved (from the header/entry size formulas) to end 0..25 (and a few larger) bytes before the 1 MiB boundary, a probe batch from 8 bytes to the 2^20-byte maximum incl. exact fits, followers; reads = full + every truncation within +-48 bytes of each block boundary, +-3 of each append end, the tail; (c) rollover / table-full logs; (d) mutated logs and raw malformed files (frames built independently in Python: non-canonical varints, unknown/duplicate/reordered fields, wrong wire types, bad sizes, discriminants, crc right and wrong, damaged entries); (e) 2..8 threads appending through ConcurrentLogBuilder, small batches and batches of 400-700 KiB (so that the write core's can_batch refuses), one process per case with a 90 s limit (a hang is a verdict); strace runs, plain and with the K-th fdatasync held and failed (EIO) among 4-8 appenders; non-trivial = at least one successful append and one read (or a raw file of >= 2 bytes); distinct = distinct case lines",
         "samples": [cases[ncorpus].impl_line()[:600] if len(cases) > ncorpus else "", cases[-1].impl_line()[:600], conc[0].line[:400] if conc else ""],
         "input_distribution": stats, "read_outcomes_impl": errkinds,
         "corpus_cases": ncorpus, "reads": n_reads, "truncations": n_cuts, "reads_also_run_on_model": n_model_reads,
